@@ -108,6 +108,20 @@ func H_doinit_total() {
 		c.Action = func() { hooks++ }
 	}
 	argv := []string{"app", "--", "x"}
+	// the spec is compiled whatever the command line asks for
+	switch vParamInt("argvKind") {
+	case 1:
+		argv = []string{"app", "-h"}
+	case 2:
+		// (a long name only: no spec of the explored length can refer to it)
+		app.Version("version", "1.0")
+		argv = []string{"app", "--version"}
+	case 3:
+		argv = []string{"app"}
+	case 4:
+		app.Version("version", "1.0")
+		argv = []string{"app", "--version", "x"}
+	}
 	if onSub {
 		app.ErrorHandling = []flag.ErrorHandling{flag.ContinueOnError, flag.ExitOnError, flag.PanicOnError}[vChoice("policy", 3)]
 		app.Command("c", "", declare)
